@@ -31,6 +31,7 @@ import (
 	"strings"
 	"sync"
 	"testing"
+	"time"
 
 	"verif.local/kit"
 	"verif.local/kit/msgpmon"
@@ -148,6 +149,10 @@ func verifMsgpMaxSize(ty msgpmon.Type) (n int, ok bool, why string) {
 	if ty.MaxSize == nil {
 		return 0, false, "no generated MaxSize"
 	}
+	if verifMsgpTypeRecursive(reflect.TypeOf(ty.New()).Elem(), map[reflect.Type]int{}) {
+		// e.g. SignedTxnWithADMaxSize <-> EvalDeltaMaxSize call each other without end (fatal stack overflow); never called
+		return 0, false, "recursive type: the generated MaxSize function does not terminate"
+	}
 	defer func() {
 		if r := recover(); r != nil {
 			ok, why = false, fmt.Sprint(r)
@@ -178,6 +183,69 @@ type verifMsgpTypeCtx struct {
 	recPrefix []byte
 	recTurn   []byte
 	recursive bool
+	// unboundedDecl: a slice/map reachable from the type is DECLARED unbounded (allocbound=-). Such a type has no MaxSize and
+	// cannot be a network message; honouring a 2^32-1 length prefix there is what the declaration says, so the 32-bit
+	// length-prefix mutation is replaced by the 16-bit one for it (listed in the evidence), which keeps the run bounded.
+	unboundedDecl string
+}
+
+// verifMsgpTypeRecursive reports whether a cycle of the type graph is reachable from t (complete DFS, no depth limit).
+func verifMsgpTypeRecursive(t reflect.Type, state map[reflect.Type]int) bool {
+	switch state[t] {
+	case 1:
+		return true
+	case 2:
+		return false
+	}
+	state[t] = 1
+	rec := false
+	switch t.Kind() {
+	case reflect.Ptr, reflect.Slice, reflect.Array:
+		rec = verifMsgpTypeRecursive(t.Elem(), state)
+	case reflect.Map:
+		rec = verifMsgpTypeRecursive(t.Key(), state) || verifMsgpTypeRecursive(t.Elem(), state)
+	case reflect.Struct:
+		for i := 0; i < t.NumField() && !rec; i++ {
+			rec = verifMsgpTypeRecursive(t.Field(i).Type, state)
+		}
+	}
+	state[t] = 2
+	return rec
+}
+
+// verifMsgpDeclaredUnbounded returns the first reachable slice/map field tagged allocbound=- ("" if none).
+func verifMsgpDeclaredUnbounded(t reflect.Type, seen map[reflect.Type]bool) string {
+	if seen[t] {
+		return ""
+	}
+	seen[t] = true
+	switch t.Kind() {
+	case reflect.Ptr, reflect.Slice, reflect.Array:
+		return verifMsgpDeclaredUnbounded(t.Elem(), seen)
+	case reflect.Map:
+		if s := verifMsgpDeclaredUnbounded(t.Key(), seen); s != "" {
+			return s
+		}
+		return verifMsgpDeclaredUnbounded(t.Elem(), seen)
+	case reflect.Struct:
+		for i := 0; i < t.NumField(); i++ {
+			sf := t.Field(i)
+			if sf.PkgPath != "" && !sf.Anonymous {
+				continue
+			}
+			if _, skip := verifMsgpCodecName(&sf); skip {
+				continue
+			}
+			k := sf.Type.Kind()
+			if (k == reflect.Slice || k == reflect.Map) && verifMsgpTagHas(&sf, "allocbound=-") {
+				return t.Name() + "." + sf.Name
+			}
+			if s := verifMsgpDeclaredUnbounded(sf.Type, seen); s != "" {
+				return s
+			}
+		}
+	}
+	return ""
 }
 
 func verifMsgpMakeTypeCtx(p *msgpmon.Package, pi, ti int) *verifMsgpTypeCtx {
@@ -185,6 +253,7 @@ func verifMsgpMakeTypeCtx(p *msgpmon.Package, pi, ti int) *verifMsgpTypeCtx {
 	tc := &verifMsgpTypeCtx{p: p, pi: pi, ti: ti, ty: ty, rt: reflect.TypeOf(ty.New()).Elem()}
 	tc.hasRaw = verifMsgpContainsRaw(tc.rt, map[reflect.Type]bool{})
 	tc.recPrefix, tc.recTurn, tc.recursive = verifMsgpRecursivePath(tc.rt)
+	tc.unboundedDecl = verifMsgpDeclaredUnbounded(tc.rt, map[reflect.Type]bool{})
 	return tc
 }
 
@@ -198,6 +267,9 @@ func verifMsgpBuildInput(seed uint64, cd *Codec, tc *verifMsgpTypeCtx, ci int) v
 	}
 	e := cd.Encode(o)
 	k := verifMsgpMutClasses[ci%len(verifMsgpMutClasses)]
+	if k == "len32" && tc.unboundedDecl != "" {
+		k = "len16"
+	}
 	var rec []byte
 	if k == "recursive-nest" && tc.recursive {
 		d := []int{200, 254, 255, 256, 300, 10000}[(ci/len(verifMsgpMutClasses))%6]
@@ -224,15 +296,16 @@ type verifMsgpChildViolation struct {
 }
 
 type verifMsgpChildResult struct {
-	Done       bool                        `json:"done"`
-	Counters   map[string]int64            `json:"counters"`
-	Maxes      map[string]int64            `json:"maxes"`
-	Distinct   []string                    `json:"distinct"`
-	Samples    []any                       `json:"samples"`
-	Violations []verifMsgpChildViolation   `json:"violations"`
-	Unchecked  map[string]string           `json:"alloc_unchecked"`
-	Recovered  []string                    `json:"recovered_panics"`
-	PerType    map[string]map[string]int64 `json:"per_type"`
+	Done          bool                        `json:"done"`
+	Counters      map[string]int64            `json:"counters"`
+	Maxes         map[string]int64            `json:"maxes"`
+	Distinct      []string                    `json:"distinct"`
+	Samples       []any                       `json:"samples"`
+	Violations    []verifMsgpChildViolation   `json:"violations"`
+	Unchecked     map[string]string           `json:"alloc_unchecked"`
+	Recovered     []string                    `json:"recovered_panics"`
+	PerType       map[string]map[string]int64 `json:"per_type"`
+	UnboundedDecl map[string]string           `json:"unbounded_decl"`
 }
 
 func verifMsgpCases(tier, lane string) int {
@@ -266,7 +339,7 @@ func RunC41Child(t *testing.T, cd *Codec) {
 		lane = "plain"
 	}
 	n := verifMsgpCases(tier, lane)
-	res := &verifMsgpChildResult{Counters: map[string]int64{}, Maxes: map[string]int64{}, Unchecked: map[string]string{}, PerType: map[string]map[string]int64{}}
+	res := &verifMsgpChildResult{Counters: map[string]int64{}, Maxes: map[string]int64{}, Unchecked: map[string]string{}, UnboundedDecl: map[string]string{}, PerType: map[string]map[string]int64{}}
 	distinct := map[string]bool{}
 	cur, err := os.OpenFile(filepath.Join(dir, fmt.Sprintf("current-%d.bin", k)), os.O_CREATE|os.O_RDWR|os.O_TRUNC, 0o644)
 	if err != nil {
@@ -298,8 +371,12 @@ func RunC41Child(t *testing.T, cd *Codec) {
 			if !haveMax {
 				res.Unchecked[tname] = why
 			}
+			if tc.unboundedDecl != "" {
+				res.UnboundedDecl[tname] = tc.unboundedDecl
+			}
 			pt := map[string]int64{}
 			res.PerType[tname] = pt
+			t0 := time.Now() // reporting only (which types dominate the run); never used in a verdict
 			for ci := 0; ci < n; ci++ {
 				in := verifMsgpBuildInput(seed, cd, tc, ci)
 				// the witness must survive the death of this process: header line + input, before decoding
@@ -395,6 +472,7 @@ func RunC41Child(t *testing.T, cd *Codec) {
 						}
 					}()
 				}
+				pt["ms"] = time.Since(t0).Milliseconds()
 				if ci < 2 && len(res.Samples) < 4 {
 					res.Samples = append(res.Samples, map[string]any{"type": tname, "mutation": in.Class, "input_hex": verifMsgpHex(in.Bytes), "error": fmt.Sprint(err), "allocated": alloc})
 				}
@@ -462,6 +540,7 @@ func RunC41(t *testing.T, cd *Codec) {
 	}
 	wg.Wait()
 	unchecked := map[string]string{}
+	unboundedDecl := map[string]string{}
 	perType := map[string]map[string]int64{}
 	var recovered []string
 	for k := 0; k < K; k++ {
@@ -495,6 +574,9 @@ func RunC41(t *testing.T, cd *Codec) {
 		for n, w := range res.Unchecked {
 			unchecked[n] = w
 		}
+		for n, w := range res.UnboundedDecl {
+			unboundedDecl[n] = w
+		}
 		for n, m := range res.PerType {
 			perType[n] = m
 		}
@@ -505,6 +587,7 @@ func RunC41(t *testing.T, cd *Codec) {
 	}
 	c.Eval(int(c.Counter("decodes")))
 	c.Extra("alloc_oracle_unchecked_types(MaxSize unavailable)", unchecked)
+	c.Extra("types_with_declared_unbounded_collections(2^32-1 length prefixes not exercised, 2^16-1 used)", unboundedDecl)
 	c.Extra("recovered_panics_sample", recovered)
 	// types that never decoded successfully or never failed are listed (coverage honesty)
 	var neverOK []string
@@ -518,6 +601,13 @@ func RunC41(t *testing.T, cd *Codec) {
 		}
 	}
 	sort.Strings(neverOK)
+	slow := map[string]int64{}
+	for n, m := range perType {
+		if m["ms"] > 3000 {
+			slow[n] = m["ms"]
+		}
+	}
+	c.Extra("types_taking_over_3s_in_child_ms", slow)
 	c.Extra("types_without_successful_decode", neverOK)
 	c.Extra("largest_single_decode_allocations_over_64MiB", big)
 
